@@ -7,6 +7,7 @@ import (
 	"encoding/json"
 	"fmt"
 	"os"
+	"runtime"
 	"testing"
 	"time"
 
@@ -158,6 +159,16 @@ func TestWorker(t *testing.T) {
 			continue
 		}
 		exec(p, i < job.From+3*stride)
+		// every bubble leaves blocked goroutines behind (the loader's update loop never
+		// exits) and with them whatever they reference: recycle the process before it grows
+		// large; the driver starts a fresh worker at the next run index
+		if i%16 == 0 {
+			var ms runtime.MemStats
+			runtime.ReadMemStats(&ms)
+			if ms.HeapInuse > 1200<<20 {
+				break
+			}
+		}
 	}
 	if job.Current != "" {
 		os.Remove(job.Current)
